@@ -492,30 +492,31 @@ func (fc *funcContext) varPtrName(o *types.Var) string {
 		return fc.pkgVar(o.Pkg()) + "." + o.Name() + "$ptr"
 	}
 
-	name, ok := fc.pkgCtx.varPtrNames[o]
-	if !ok {
-		name = fc.newVariable(o.Name()+"$ptr", isPkgLevel(o))
-		fc.pkgCtx.varPtrNames[o] = name
+	if !isPkgLevel(o) {
+		// Function-level variables: the pointer variable is a local of the function
+		// context that first needs it and is visible in the function literals nested
+		// in it. The name must be allocated by newVariable in that context, so that
+		// it is reserved there. In particular every instantiation of a generic
+		// function gets its own name, even though `o` is shared among them.
+		for c := fc; c != nil; c = c.parent {
+			if name, ok := c.varPtrNames[o]; ok {
+				return name
+			}
+		}
+		name := fc.newVariable(o.Name()+"$ptr", false)
+		if fc.varPtrNames == nil {
+			fc.varPtrNames = make(map[*types.Var]string)
+		}
+		fc.varPtrNames[o] = name
 		return name
 	}
 
-	// If name already exists for the package, check that the function's instantiation
-	// also has the name in its localVars. This is to handle generics where `o` is
-	// shared among multiple instantiations of the same generic, but `newVariable`
-	// is only called for the first.
-	if !fc.instance.IsTrivial() && !containsString(fc.localVars, name) {
-		fc.localVars = append(fc.localVars, name)
+	name, ok := fc.pkgCtx.varPtrNames[o]
+	if !ok {
+		name = fc.newVariable(o.Name()+"$ptr", true)
+		fc.pkgCtx.varPtrNames[o] = name
 	}
 	return name
-}
-
-func containsString(s []string, v string) bool {
-	for i := len(s) - 1; i >= 0; i-- {
-		if v == s[i] {
-			return true
-		}
-	}
-	return false
 }
 
 // typeName returns a JS identifier name for the given Go type.
